@@ -8,6 +8,7 @@ package messagequeue
 //@ -- ghost history of the reservation made for this peer's queued response data
 //@ ghost relBytes int                  -- bytes handed back to the allocator so far (ReleaseBlockMemory)
 //@ ghost relCalls int
+//@ ghost nFinal map[int]int             -- C16: per message topic, how many final reports (sent or error) were published
 //@ func Allocator.ReleaseBlockMemory
 //@   assumed
 //@   modifies nothing
@@ -15,9 +16,11 @@ package messagequeue
 //@   ghost relCalls := old(relCalls) + 1
 
 //@ pred blk(b *Builder) := b.Builder.blkSize
-//@ pred buildersOK(mq *MessageQueue) := mq.allocator != nil && mq.eventPublisher != nil && errEmptyMessage != nil
-//@    && (forall i int :: 0 <= i && i < len(mq.builders) ==> mq.builders[i] != nil && mq.builders[i].Builder != nil && isalloc(mq.builders[i]) && isalloc(mq.builders[i].Builder))
-//@    && (forall i int, j int :: 0 <= i && i < j && j < len(mq.builders) ==> mq.builders[i] != mq.builders[j] && mq.builders[i].Builder != mq.builders[j].Builder)
+//@ -- (stated over absolute positions of the backing array, so that it survives builders[1:] and append)
+//@ pred buildersOK(mq *MessageQueue) := mq.allocator != nil && mq.eventPublisher != nil && errEmptyMessage != nil && seqOK(mq.builders)
+//@ pred seqOK(bs []*Builder) :=
+//@       (forall i int :: slo(bs) <= i && i < shi(bs) ==> sat(bs, i) != nil && sat(bs, i).Builder != nil && isalloc(sat(bs, i)) && isalloc(sat(bs, i).Builder))
+//@    && (forall i int, j int :: slo(bs) <= i && i < j && j < shi(bs) ==> sat(bs, i) != sat(bs, j) && sat(bs, i).Builder != sat(bs, j).Builder)
 
 //@ func Builder.ScrubResponses
 //@   requires b.Builder != nil
@@ -35,6 +38,11 @@ package messagequeue
 //@            allmaps("map[graphsync.RequestID][]graphsync.ExtensionData"), allmaps("map[graphsync.RequestID][]gsmsg.GraphSyncLinkMetadatum")
 //@   ensures result == SeqSum2(old(mq.builders), old(len(mq.builders)), Builder.Builder, old(gsmsg.Builder.blkSize))
 //@                    - SeqSum2(old(mq.builders), old(len(mq.builders)), Builder.Builder, gsmsg.Builder.blkSize)
+//@   ensures buildersOK(mq)
+//@   loop 1 invariant mq.allocator != nil && mq.eventPublisher != nil && errEmptyMessage != nil
+//@   loop 1 invariant forall j int, i int :: slo(newBuilders) <= j && j < shi(newBuilders) && slo(old(mq.builders)) + idx1 <= i && i < shi(old(mq.builders)) ==>
+//@              sat(newBuilders, j) != sat(old(mq.builders), i) && sat(newBuilders, j).Builder != sat(old(mq.builders), i).Builder
+//@   loop 1 invariant seqOK(newBuilders)
 //@   loop 1 invariant 0 <= totalFreed
 //@   loop 1 invariant totalFreed == SeqSum2(old(mq.builders), idx1, Builder.Builder, old(gsmsg.Builder.blkSize))
 //@                                  - SeqSum2(old(mq.builders), idx1, Builder.Builder, gsmsg.Builder.blkSize)
@@ -53,6 +61,7 @@ package messagequeue
 //@            allmaps("map[graphsync.RequestID]io.Closer"), allmaps("map[graphsync.RequestID]notifications.Subscriber"), allmaps("map[graphsync.RequestID][]graphsync.BlockData"),
 //@            gsmsg.Builder.blkSize, gsmsg.Builder.outgoingBlocks, allmaps("map[graphsync.RequestID]graphsync.ResponseStatusCode"),
 //@            allmaps("map[graphsync.RequestID][]graphsync.ExtensionData"), allmaps("map[graphsync.RequestID][]gsmsg.GraphSyncLinkMetadatum")
+//@   ensures buildersOK(mq)
 //@   ensures relBytes - old(relBytes) == SeqSum2(old(mq.builders), old(len(mq.builders)), Builder.Builder, old(gsmsg.Builder.blkSize))
 //@                                        - SeqSum2(old(mq.builders), old(len(mq.builders)), Builder.Builder, gsmsg.Builder.blkSize)
 
@@ -61,6 +70,7 @@ package messagequeue
 //@   lenient
 //@   requires mq.allocator != nil && mq.eventPublisher != nil
 //@   modifies relBytes, relCalls, alloc
+//@   ghost nFinal := upd(old(nFinal), metadata.topic, old(nFinal)[metadata.topic] + 1)
 //@   ensures relBytes == old(relBytes) + metadata.msgSize && relCalls == old(relCalls) + 1
 
 //@ -- C15: a failed message gives back exactly the bytes it carried plus what its failure scrubbed from the queue
@@ -71,6 +81,8 @@ package messagequeue
 //@            allmaps("map[graphsync.RequestID]io.Closer"), allmaps("map[graphsync.RequestID]notifications.Subscriber"), allmaps("map[graphsync.RequestID][]graphsync.BlockData"),
 //@            gsmsg.Builder.blkSize, gsmsg.Builder.outgoingBlocks, allmaps("map[graphsync.RequestID]graphsync.ResponseStatusCode"),
 //@            allmaps("map[graphsync.RequestID][]graphsync.ExtensionData"), allmaps("map[graphsync.RequestID][]gsmsg.GraphSyncLinkMetadatum")
+//@   ghost nFinal := upd(old(nFinal), metadata.topic, old(nFinal)[metadata.topic] + 1)
+//@   ensures buildersOK(mq)
 //@   ensures relBytes - old(relBytes) == metadata.msgSize
 //@                + SeqSum2(old(mq.builders), old(len(mq.builders)), Builder.Builder, old(gsmsg.Builder.blkSize))
 //@                - SeqSum2(old(mq.builders), old(len(mq.builders)), Builder.Builder, gsmsg.Builder.blkSize)
@@ -88,6 +100,7 @@ package messagequeue
 //@   lenient
 //@   requires buildersOK(mq)
 //@   modifies mq.builders, alloc
+//@   ensures buildersOK(mq)
 //@   ensures len(old(mq.builders)) == 0 ==> result2 != nil && mq.builders == old(mq.builders)
 //@   ensures len(old(mq.builders)) > 0 ==> mq.builders == old(mq.builders[1:])
 //@   ensures result2 == nil ==> len(old(mq.builders)) > 0 && result1.msgSize == old(mq.builders[0].Builder.blkSize) && result1.topic == old(mq.builders[0].topic)
@@ -128,3 +141,46 @@ package messagequeue
 //@   requires buildersOK(mq) && buildMessageFn != nil
 //@   modifies mq.builders, mq.nextBuilderTopic, gsmsg.Builder.blkSize, alloc
 //@   callsite Allocator.AllocateBlockMemory: assert size > 0 && $amount == size && $p == mq.p
+
+//@ -- ============================ C16: every extracted message gets exactly one final report ============================
+//@ pred mqFootprint() := true
+//@ func MessageQueue.publishQueued
+//@   lenient
+//@   safety off
+//@   modifies alloc
+//@ func MessageQueue.initializeSender
+//@   lenient
+//@   safety off
+//@   modifies mq.sender, alloc
+//@   ensures result == nil ==> mq.sender != nil
+//@   ensures result != nil ==> mq.sender == old(mq.sender)
+//@ func MessageQueue.Shutdown
+//@   lenient
+//@   safety off
+//@   modifies alloc
+
+//@ -- one send attempt: true = the message has had its final report (sent, or failed for good); false = nothing reported
+//@ -- yet and a sender is available for the next attempt
+//@ func MessageQueue.attemptSendAndRecovery
+//@   lenient
+//@   requires buildersOK(mq) && mq.sender != nil
+//@   modifies mq.sender, mq.builders, Builder.responseStreams, Builder.subscribers, Builder.blockData, alloc, relBytes, relCalls, nFinal,
+//@            allmaps("map[graphsync.RequestID]io.Closer"), allmaps("map[graphsync.RequestID]notifications.Subscriber"), allmaps("map[graphsync.RequestID][]graphsync.BlockData"),
+//@            gsmsg.Builder.blkSize, gsmsg.Builder.outgoingBlocks, allmaps("map[graphsync.RequestID]graphsync.ResponseStatusCode"),
+//@            allmaps("map[graphsync.RequestID][]graphsync.ExtensionData"), allmaps("map[graphsync.RequestID][]gsmsg.GraphSyncLinkMetadatum")
+//@   ensures buildersOK(mq)
+//@   ensures result ==> nFinal == upd(old(nFinal), metadata.topic, old(nFinal)[metadata.topic] + 1)
+//@   ensures !result ==> nFinal == old(nFinal) && mq.sender != nil
+
+//@ -- whatever happens (cannot connect, sent, retries exhausted also when maxRetries <= 0, shutdown or context end during
+//@ -- recovery): the extracted message gets exactly ONE final report, and its topic is closed only after that report
+//@ func MessageQueue.sendMessage
+//@   lenient
+//@   requires buildersOK(mq)
+//@   modifies mq.sender, mq.builders, Builder.responseStreams, Builder.subscribers, Builder.blockData, alloc, relBytes, relCalls, nFinal,
+//@            allmaps("map[graphsync.RequestID]io.Closer"), allmaps("map[graphsync.RequestID]notifications.Subscriber"), allmaps("map[graphsync.RequestID][]graphsync.BlockData"),
+//@            gsmsg.Builder.blkSize, gsmsg.Builder.outgoingBlocks, allmaps("map[graphsync.RequestID]graphsync.ResponseStatusCode"),
+//@            allmaps("map[graphsync.RequestID][]graphsync.ExtensionData"), allmaps("map[graphsync.RequestID][]gsmsg.GraphSyncLinkMetadatum")
+//@   ensures (forall t int :: nFinal[t] == old(nFinal)[t]) || (exists t0 int :: nFinal == upd(old(nFinal), t0, old(nFinal)[t0] + 1))
+//@   callsite Publisher.Close: assert nFinal == upd(old(nFinal), metadata.topic, old(nFinal)[metadata.topic] + 1)
+//@   loop 1 invariant nFinal == old(nFinal) && mq.sender != nil && buildersOK(mq)
